@@ -103,8 +103,8 @@ META = {
          "Whenever the Reader reports a clean end of stream on a mutated frame, the independent frame implementation must accept exactly the consumed bytes with identical output. One-directional by design (rejecting is always allowed)."),
  "C06": ("crash-point enumeration: every prefix of generated frames x 6 reader configurations",
          "All prefix lengths of small frames (every option combination) and every structural boundary +-3 plus sampled interior points of larger ones are read with 6 reader configurations. Exhaustive per generated frame, sampled over frames."),
- "C07": ("rapid PBT of hostile inputs in synctest bubbles, allocation meter, journaled crash-class inputs; thorough adds the full 2^32 first-word enumeration",
-         "Random / mutated / hostile-field / skippable / deep-repetition inputs; termination and leaked goroutines decided by synctest bubbles, process death caught through a journaled case, allocation by MemStats. Thorough enumerates all 2^32 first words through ValidFrameHeader."),
+ "C07": ("rapid PBT of hostile inputs in synctest bubbles, allocation and reachable-heap meters, journaled crash-class inputs; thorough adds the full 2^32 first-word enumeration",
+         "Random / mutated / hostile-field / skippable / deep-repetition inputs; termination and leaked goroutines decided by synctest bubbles, process death caught through a journaled case, allocation by MemStats; a slow consumer inside the bubble saturates the read-ahead and the reachable heap is measured after forced collections (bounded whatever the number of blocks). Thorough enumerates all 2^32 first words through ValidFrameHeader."),
  "C08": ("stateful PBT of concurrent Writer/Reader histories in synctest bubbles with generated hook-site schedules, pool poisoning, race detector",
          "Legal histories on concurrent objects run in bubbles (deadlock / leak detection is deterministic for channel blocking) with drawn delays at 17 hook sites, poisoned pool buffers, differential against the sequential Writer, and the same campaign under the race detector and with GOMAXPROCS 1/2/16. Schedules are sampled."),
  "C09": ("rapid PBT, conformance oracle = independent strict frame parser (and golden files from the reference CLI validate that parser)",
